@@ -455,16 +455,78 @@ fn check_rootdir(ctx: &mut Ctx, c: &RootDirCase) -> Outcome {
     Pass::new(true).class("root-directory-as-starting-point").sample(json!({"cmdline": format!("find {} -maxdepth 0 -{kind} rec {{}} +", c.spelling), "cwd": lossy(&recs[0].cwd), "argument": lossy(&recs[0].args[0])})).ok()
 }
 
+// ---- a directory whose path is as long as a path can be ------------------------------------------------
+
+/// `-execdir CMD {} +` (and `;`) on two files in a directory whose relative path has exactly `len`
+/// bytes (PATH_MAX is 4096 including the terminator).
+#[derive(Serialize, Deserialize, Debug, Clone)]
+pub struct LongDirCase {
+    pub len: usize,
+    pub plus: bool,
+}
+
+fn check_longdir(ctx: &mut Ctx, c: &LongDirCase) -> Outcome {
+    ctx.fresh_case_dir();
+    // c/L/<250 x 'd'>/.../<rest>
+    let mut p = String::from("c/L");
+    while p.len() + 252 < c.len {
+        p.push('/');
+        p.push_str(&"d".repeat(250));
+    }
+    let rest = c.len - p.len() - 1;
+    if rest == 0 || rest > 255 {
+        return Pass::discard("length not reachable with 250-byte components");
+    }
+    p.push('/');
+    p.push_str(&"e".repeat(rest));
+    if std::fs::create_dir_all(&p).is_err() {
+        return Pass::discard("cannot create the directory chain");
+    }
+    // the files' own paths may be longer than a path can be: create them relative to the directory
+    {
+        use std::os::fd::AsRawFd;
+        let Ok(d) = std::fs::File::open(&p) else { return Pass::discard("cannot open the directory") };
+        for n in [c"f", c"g"] {
+            let fd = unsafe { libc::openat(d.as_raw_fd(), n.as_ptr(), libc::O_CREAT | libc::O_WRONLY, 0o644) };
+            if fd < 0 {
+                return Pass::discard("cannot create a file in the directory");
+            }
+            unsafe { libc::close(fd) };
+        }
+    }
+    let log = ctx.root.join("rec.log");
+    let _ = std::fs::remove_file(&log);
+    let rec = rec_bin().to_string_lossy().into_owned();
+    let mut args: Vec<OsString> = vec!["c/L".into(), "-sorted".into(), "-type".into(), "f".into(), "-execdir".into(), rec.into(), "{}".into()];
+    args.push(if c.plus { "+" } else { ";" }.into());
+    let o = ctx.run_bin(&find_bin(), &args, &BinOpts { env: vec![("VERIF_REC_LOG".into(), log.clone().into_os_string())], ..Default::default() });
+    let recs = read_rec_log(&log);
+    let delivered: Vec<String> = recs.iter().flat_map(|r| r.args.iter().map(|a| lossy(a))).collect();
+    let desc = format!("find c/L -sorted -type f -execdir rec {{}} {}   (directory path of {} bytes)\nexit {:?} stderr {:?}\ninvocations {} delivering {delivered:?}", if c.plus { "+" } else { ";" }, p.len(), o.code, lossy(&o.stderr[..o.stderr.len().min(300)]), recs.len());
+    // (not canonicalize(): the absolute path is longer than PATH_MAX; the sandbox root is canonical)
+    let want_cwd = format!("{}/{p}", ctx.root.to_string_lossy());
+    if delivered != ["./f", "./g"] || recs.iter().any(|r| lossy(&r.cwd) != want_cwd) || o.code != Some(0) {
+        return fail(format!("C08:execdir:directory-path-of-maximal-length:{}", if c.plus { "plus" } else { "semicolon" }), desc);
+    }
+    Pass::new(c.len >= 4090).class("long-directory-path").sample(json!({"directory_path_bytes": p.len(), "form": if c.plus { "+" } else { ";" }})).ok()
+}
+
 fn run(w: &mut Worker) {
     w.regress::<Case>("batches", check);
     let big = w.tier == crate::engine::Tier::Thorough;
     w.random("batches", w.tier.pick(2_400, 30_000), (40, 120), 60, move |g| gen_case(g, big), check);
+    w.regress::<LongDirCase>("long-directory", check_longdir);
+    let ld: Vec<LongDirCase> = [1000usize, 4000, 4090, 4092, 4093, 4094, 4095].iter().flat_map(|l| [true, false].map(|plus| LongDirCase { len: *l, plus })).collect();
+    w.exhaustive("long-directory", "-execdir rec {} + / ; on two files in a directory whose relative path has 1000 ... 4095 bytes", ld.into_iter(), check_longdir);
     w.regress::<RootDirCase>("root-directory", check_rootdir);
     let rd: Vec<RootDirCase> = ["/", "//", "/."].iter().flat_map(|sp| [false, true].map(|execdir| RootDirCase { execdir, spelling: sp.to_string() })).collect();
     w.exhaustive("root-directory", "find / (also //, /.) -maxdepth 0 -exec|-execdir rec {} + : one invocation, whose argument names the root directory", rd.into_iter(), check_rootdir);
 }
 
 fn replay(w: &mut Worker, sub: &str, v: Value) -> Outcome {
+    if sub == "long-directory" {
+        return check_longdir(&mut w.ctx, &decode(v));
+    }
     if sub == "root-directory" {
         return check_rootdir(&mut w.ctx, &decode(v));
     }
